@@ -9,6 +9,7 @@ import (
 	"os"
 	"path/filepath"
 	"strings"
+	"time"
 )
 
 // C17: run histories of the built profiler over a private cache directory.
@@ -141,6 +142,9 @@ func (c *cacheRig) run(r Run) procResult {
 	os.MkdirAll(c.ctl, 0o777)
 	os.WriteFile(filepath.Join(c.ctl, "listing"), []byte(c.listings[r.Variant]), 0o644)
 	kind, j := parseSched(r.Sched)
+	if kind == "overlap" {
+		return c.runOverlap(r, target)
+	}
 	p := plan{Chunks: cacheChunks, FailAfter: -1}
 	path, killAt := c.e.fakePath, -1
 	switch kind {
@@ -272,6 +276,9 @@ func runCache(e *env, replayCases []string) error {
 			hs = append(hs, History{Runs: []Run{{Variant: 0, Sched: fmt.Sprintf("kill:%d", j), LongName: true}, {Variant: 0, Sched: "ok", LongName: true}}})
 		}
 		hs = append(hs, History{Runs: []Run{{Variant: 0, Sched: "fail:2", LongName: true}, {Variant: 0, Sched: "ok", LongName: true}}})
+		for _, jk := range [][2]int{{1, 3}, {2, 5}, {4, 2}, {5, 6}} {
+			hs = append(hs, History{Runs: []Run{{Variant: 0, Sched: fmt.Sprintf("overlap:%d:%d", jk[0], jk[1])}, {Variant: 0, Sched: "ok"}}})
+		}
 		hs = append(hs, History{Runs: []Run{{Variant: 0, Sched: "missing"}, {Variant: 0, Sched: "ok"}}})
 		hs = append(hs, History{Runs: []Run{{Variant: 0, Sched: "ok"}, {Variant: 0, Sched: "ok"}}})
 		hs = append(hs, History{Runs: []Run{{Variant: 0, Sched: "ok"}, {Variant: 1, Sched: "kill:3"}, {Variant: 1, Sched: "ok"}, {Variant: 0, Sched: "ok"}}})
@@ -303,6 +310,10 @@ func runCache(e *env, replayCases []string) error {
 			if r.LongName {
 				direct = true
 				e.tag("binary-name-of-242-bytes")
+			}
+			if strings.HasPrefix(r.Sched, "overlap:") {
+				direct = true
+				e.tag("two-overlapping-runs-the-later-one-killed")
 			}
 		}
 		e.count(string(hj), nontrivial)
@@ -391,4 +402,49 @@ func lastLines(s string, k int) string {
 		l = l[len(l)-k:]
 	}
 	return strings.Join(l, " ⏎ ")
+}
+
+// runOverlap: two runs on the same binary overlap — run A is held while its disassembler has printed j
+// chunks, run B starts, gets as far as k chunks and is killed, then A is released and finishes.  The result
+// is A's.  (Schedule "overlap:j:k"; checked against the property only: the next normal run must yield the
+// cold-cache profile or fail.)
+func (c *cacheRig) runOverlap(r Run, target string) procResult {
+	var j, k int
+	fmt.Sscanf(strings.TrimPrefix(r.Sched, "overlap:"), "%d:%d", &j, &k)
+	ctlA, ctlB := c.ctl, c.ctl+"-b"
+	for _, d := range []struct {
+		dir  string
+		plan plan
+	}{{ctlA, plan{Chunks: cacheChunks, FailAfter: -1, Sync: true, PassUntil: j}}, {ctlB, plan{Chunks: cacheChunks, FailAfter: -1, Sync: true, PassUntil: k}}} {
+		os.RemoveAll(d.dir)
+		os.MkdirAll(d.dir, 0o777)
+		os.WriteFile(filepath.Join(d.dir, "listing"), []byte(c.listings[r.Variant]), 0o644)
+		data, _ := json.Marshal(d.plan)
+		os.WriteFile(filepath.Join(d.dir, "plan.json"), data, 0o644)
+		chownR(d.dir)
+	}
+	args := []string{"-format", "config", target}
+	resA := make(chan procResult, 1)
+	go func() { resA <- c.e.runBinary(c.e.profiler, nil, c.home, c.e.fakePath, ctlA, args, -1, -1) }()
+	release := func() {
+		for i := j; i <= cacheChunks; i++ {
+			os.WriteFile(filepath.Join(ctlA, fmt.Sprintf("go.%d", i)), nil, 0o666)
+		}
+	}
+	for t := 0; t < 40000; t++ {
+		if _, err := os.Stat(filepath.Join(ctlA, fmt.Sprintf("at.%d", j))); err == nil {
+			break
+		}
+		select {
+		case res := <-resA: // A ended before reaching the boundary (a cache hit, an early error)
+			return res
+		default:
+		}
+		time.Sleep(500 * time.Microsecond)
+	}
+	c.e.runBinary(c.e.profiler, nil, c.home, c.e.fakePath, ctlB, args, k, -1)
+	release()
+	res := <-resA
+	os.RemoveAll(ctlB)
+	return res
 }
